@@ -32,11 +32,22 @@ def main() -> int:
     ctx = Ctx(a.prop, a.tier, seed)
     try:
         mod.run(ctx)
-    except Exception:
+    except Exception as e:
+        # The harness itself blew up on this tree.  On the unchanged tree that does not happen; on a changed tree it means the code no longer
+        # behaves the way the correspondence expects (a record that vanished, a call that now raises): by the protocol a broken correspondence
+        # is reported - with the concrete violations found before the crash, or as no-failing-input-found.
         traceback.print_exc()
-        ctx.cleanup()
-        print(f"{a.prop}: infrastructure error", file=sys.stderr)
-        return 2
+        tb = traceback.extract_tb(e.__traceback__)
+        where = " <- ".join(f"{os.path.basename(f.filename)}:{f.lineno}" for f in tb[-3:])
+        try:
+            ctx.obligation("the check ran to completion on this tree (harness, driver and the code under test raised nothing unexpected)", False,
+                           f"{type(e).__name__}: {str(e)[:200]} at {where}")
+            return ctx.finish()
+        except Exception:
+            traceback.print_exc()
+            ctx.cleanup()
+            print(f"{a.prop}: infrastructure error", file=sys.stderr)
+            return 2
     return ctx.finish()
 
 
